@@ -351,6 +351,16 @@ func c17Servers(r *rand.Rand, rep *runReport, cw *caseWriter, id0 int, n int) {
 			summary, pend = c17Pending(reps)
 			budget = 1
 		}
+		if k == 3 || k == 4 {
+			// corpus: more problems than maxComments (the general "too many comments" comment must not be repeated forever)
+			diff, kind = "@@ -1,1 +1,4 @@\n ctx\n+new2\n+new3\n+new4\n", "corpus-too-many"
+			reps = nil
+			for l := 2; l <= 4; l++ {
+				reps = append(reps, c17Rep{ID: l, Name: path, Target: path, Reporter: "r/a", Summary: fmt.Sprintf("p%d", l), First: l, Last: l, Sev: 1, Modified: []int{l}})
+			}
+			summary, pend = c17Pending(reps)
+			budget = 1
+		}
 		if k%2 == 0 {
 			c17GitLabScenario(r, rep, cw, id0+k, k, diff, kind, path, reps, summary, pend, budget)
 		} else {
